@@ -1,5 +1,11 @@
 """C03 — graceful exporter shutdown drains accepted data and stops all work."""
+import re
 import vlib
+
+LABELS = ["LOffer", "LOfferFail", "LTake", "LConsExit", "LAbsorb(keep)", "LAbsorb(flush)", "LSpawnC", "LBegin",
+          "LEnd(ok)", "LEnd(transient)", "LEnd(permanent)", "LRetryTimer", "LRetryStop", "LRetryGiveUp", "LDone",
+          "LTimerFire", "LTimerSpawn", "LTimerExit", "LShutCall", "LCloseStop", "LQueueStop", "LJoinConsumers",
+          "LFinalFlush", "LFinalSpawn", "LJoinFlushes", "LInnerShutdown", "LReturn"]
 
 
 class P(vlib.Prop):
@@ -16,6 +22,54 @@ class P(vlib.Prop):
         vlib.Harness("shutdown", "exporter", "./exporterhelper/internal/",
                      {"zz_verif_c03_test.go": "C03/shutdown_test.go"}, "^TestVerifC03$", "internal", timeout=240),
     ]
-    rule = ""
-    trusted_base = []
-    assumptions = []
+    rule = ("gated schedules (720 quick / 14 400 thorough): a REAL BaseExporter (queue sender + batcher + retry + obs-report "
+            "senders) with configuration drawn from {memory, persistent} x {no batch, sending_queue::batch, legacy WithBatcher} "
+            "x min_size 1-6 x flush timer goroutine on/off x retry {off, long back-off, 2 ms back-off, gives up} x consumers 1-4; "
+            "the export function blocks on a gate; actions offer(id, items) / release(call, ok|transient|permanent) / "
+            "fire the flush timer / call Shutdown (at a random point, then releases and late offers until it returns, then "
+            "one offer after the return), one at a time, each followed by quiescence detection (stop-the-world goroutine "
+            "dump: every exporter goroutine blocked; no sleeps).  Case = (cfg, [(action, sorted events of the phase)], "
+            "(ids still stored, live goroutines)); Coq replays the actions on the LTS with the deterministic scheduler "
+            "[exec] and compares every phase and the final observation.  Non-trivial = the schedule contains at least one "
+            "release; distinct = distinct case terms.  The one genuine race (persistent queue: a consumer woken from its "
+            "back-off by close(stopCh) vs. the queue's stop) is resolved by observation: the harness reports how many ids "
+            "first began after the call, the scheduler replays that many winning Reads (action (2, m, 1)).  Plus 400 / 8 000 UNGATED stress schedules (concurrent "
+            "producers, self-answering backend with random outcomes and delays, max_size splitting, 1-4 ms flush timer, "
+            "small queues, Shutdown at a random moment), oracle-only.  Direct oracle on every schedule: see the header of "
+            "harness/C03/shutdown_test.go.")
+    trusted_base = [
+        "Coq 8.16.1 kernel + vm_compute (coqc); no axioms (Print Assumptions: closed under the global context)",
+        "hand-written LTS coq/C03/Model.v (atomic sections of base_exporter.go Shutdown, queue_batch.go, async_queue.go, "
+        "memory_queue.go, persistent_queue.go, default_batcher.go, disabled_batcher.go, retry_sender.go), tied to the code by "
+        "the correspondence run only",
+        "Go harness harness/C03/shutdown_test.go (+ go test -overlay, Go toolchain); quiescence detection by parsing runtime.Stack; "
+        "reflect/unsafe access to defaultBatcher.timer to fire the flush timer",
+        "the harness's fake request (MergeSplit), encoding and in-memory storage extension",
+    ]
+    assumptions = [
+        "every label of the LTS is an atomic section of the Go code (mutex-protected block, channel operation, goroutine start/exit); "
+        "data guarded by a mutex is only touched under it",
+        "sync.Mutex, sync.Cond, sync.WaitGroup, channels and time.Timer behave as documented",
+        "Start has completed before the first offer; Shutdown is called once; the export function returns when answered "
+        "(timeout sender disabled in the harness); num_consumers >= 1 and, with batching, a worker pool >= 1 (forced by queue_batch.go)",
+        "not modelled: queue capacity / block_on_overflow / wait_for_result (C02), max_size splitting (C04; stress-tested only), "
+        "back-off durations (the back-off timer may fire at any time), storage failures and process death (C01), "
+        "senders without a queue (Send runs on the caller's goroutine; Shutdown does not wait for it)",
+    ]
+
+    def extra_checks(self, ctx):
+        """Evidence: which labels of the LTS the model takes while replaying (a sample of) the cases."""
+        terms = [c["term"] for c in ctx.cases if len(c["term"]) < 4000][:150]
+        if not terms:
+            return
+        out = vlib.coq_eval_term(ctx, "C03.Harness", "label_hist [%s]" % "; ".join(terms))
+        m = re.search(r"\[([0-9;\s]+)\]", out)
+        if not m:
+            ctx.notes.append("label histogram could not be evaluated: " + out[:300])
+            return
+        counts = [int(x) for x in m.group(1).replace(" ", "").split(";") if x]
+        hist = dict(zip(LABELS, counts))
+        ctx.extra_coverage["model_label_histogram"] = {"cases_sampled": len(terms), "labels": hist}
+        missing = [k for k, v in hist.items() if v == 0]
+        if missing:
+            ctx.notes.append("labels of the LTS not exercised by the sampled cases: " + ", ".join(missing))
